@@ -91,3 +91,14 @@ Theorem C06_strip_sign_padding : forall bs k, bytes_ok bs -> bs <> [] ->
   strip (repeat (if 128 <=? hd 0 bs then 255 else 0) k ++ bs) = strip bs.
 Proof. exact strip_sign_padding. Qed.
 Print Assumptions C06_strip_sign_padding.
+
+Theorem C06_fixed_width_members_have_injective_keys : forall std e n,
+  fixed_bits e = Some n -> key_injective std e.
+Proof. exact fixed_bits_key_injective. Qed.
+Print Assumptions C06_fixed_width_members_have_injective_keys.
+
+Theorem C06_uper_setof_order_irrelevant_fixed_width : forall std tg s e n v1 v2,
+  fixed_bits e = Some n -> same_abs (TSetOf tg s e) v1 v2 ->
+  uper_encode std (TSetOf tg s e) v1 = uper_encode std (TSetOf tg s e) v2.
+Proof. exact uper_setof_fixed_width. Qed.
+Print Assumptions C06_uper_setof_order_irrelevant_fixed_width.
